@@ -6,22 +6,20 @@ Require Import Avro.Model.Base Avro.Model.Prim Avro.Model.Schema Avro.Model.GoTy
 
 (* ---- registry of custom codec builders (avro.Register) ---- *)
 Inductive builder := BWrap (w : wkind) | BCustom (k : Z).
-Definition registry := Z -> option builder.
+Inductive rkey := RWrap (w : wkind) | RNamed (id : Z).   (* reflect.Type identity of a registrable type *)
+Definition registry := rkey -> option builder.
 
 Definition wrap_id (w : wkind) : Z :=
   match w with WTime => 1 | WNullInt => 2 | WNullBool => 3 | WNullFloat => 4 | WNullString => 5 | WNullTime => 6 end.
 
 (* time.RegisterCodecs + null.RegisterCodecs *)
-Definition reg_std : registry := fun id =>
-  if id =? 1 then Some (BWrap WTime) else if id =? 2 then Some (BWrap WNullInt)
-  else if id =? 3 then Some (BWrap WNullBool) else if id =? 4 then Some (BWrap WNullFloat)
-  else if id =? 5 then Some (BWrap WNullString) else if id =? 6 then Some (BWrap WNullTime) else None.
+Definition reg_std : registry := fun k => match k with RWrap w => Some (BWrap w) | RNamed _ => None end.
 
 Definition reg_set (reg : registry) (id : Z) (bd : builder) : registry :=
-  fun i => if i =? id then Some bd else reg i.
+  fun k => match k with RNamed i => if i =? id then Some bd else reg k | _ => reg k end.
 
 Definition reg_lookup (reg : registry) (t : gtype) : option builder :=
-  match t with TWrap w => reg (wrap_id w) | TNamed id _ => reg id | _ => None end.
+  match t with TWrap w => reg (RWrap w) | TNamed id _ => reg (RNamed id) | _ => None end.
 
 (* ---- codec tree ---- *)
 Inductive codec :=
